@@ -53,9 +53,14 @@ OtherEnv ==
   \/ \E bi, bj \in Nodes : bi # bj /\ {bi, bj} \in FaultPairs /\ faults < MaxFaults /\ Break(bi, bj) /\ faults' = faults + 1 /\ UNCHANGED unused
   \/ \E ni, nj \in Nodes : Notice(ni, nj) /\ UNCHANGED <<unused, faults>>
   \/ \E ci, cj \in Nodes : {ci, cj} \in FaultPairs /\ Connect(ci, cj) /\ UNCHANGED <<unused, faults>>
-  \/ \E fn \in Compactors : ~node[fn].force /\ Compact(fn) /\ UNCHANGED <<unused, faults>>
+  \/ \E fn \in Compactors : node[fn].alive /\ ~node[fn].force /\ Compact(fn) /\ UNCHANGED <<unused, faults>>
   \/ \E kn \in CrashNodes : faults < MaxFaults /\ Crash(kn) /\ faults' = faults + 1 /\ UNCHANGED unused
   \/ \E rn \in CrashNodes : Restart(rn) /\ UNCHANGED <<unused, faults>>
+  \* the forked dump writer finishes, or is killed (fault budget)
+  \/ \E fc \in Nodes : node[fc].alive /\ Fork /\ DumpFile
+        /\ ChildDone(fc, [sid |-> ToString(<<node[fc].child.content.last.idx, node[fc].term, Len(node[fc].child.content.hist), "f">>), size |-> SnapSize])
+        /\ UNCHANGED <<unused, faults>>
+  \/ \E fk \in Nodes : node[fk].alive /\ Fork /\ DumpFile /\ faults < MaxFaults /\ ChildKilled(fk) /\ faults' = faults + 1 /\ UNCHANGED unused
 
 Env == TickEnv \/ (OtherEnv /\ lastTick' = Nil)
 MCNext == Env /\ GNext
@@ -78,6 +83,9 @@ StepOK == [][StepViolations = {}]_mcvars
 \* individual formulas, one INVARIANT / PROPERTY line per property formula
 P_MonotoneIndices == [][MonotoneIndices]_mcvars
 P_HistAppendOnly == [][HistAppendOnly]_mcvars
+P_VoteSurvives == [][VoteSurvives]_mcvars
+P_VoteDurableAtDeath == [][VoteDurableAtDeath]_mcvars
+P_AckedDurable == [][AckedDurable]_mcvars
 P_CommitIsQuorumBacked == [][CommitIsQuorumBacked]_mcvars
 P_LeaderCompleteness == [][LeaderCompleteness]_mcvars
 P_TermMonotone == [][TermMonotone]_mcvars
